@@ -191,6 +191,8 @@ class Loader:
         parts = name.split('.')
         for i in range(1, len(parts)):
             self.load('.'.join(parts[:i]))
+        if name in self.mods:           # loading a parent package may already have imported this module
+            return self.mods[name]
         if name in self.stubs:
             m = Stub(name)
             self.mods[name] = m
